@@ -37,9 +37,33 @@ ENCODED = [
     "menelaus.data_drift.nndvi:NNDVI.update",
     "menelaus.data_drift.pca_cd:PCACD.update",
 ]
-BOUNDS = {}
-OUTSIDE = ""
-ASSUMPTIONS = []
+BOUNDS = {
+    "quick": "S (one inductive step from an arbitrary invariant state, history length unbounded): DDM, EDDM, PageHinkley with "
+             "unbounded symbolic n_threshold / burn_in / thresholds, STEPD with window contents of length L<=3 and unbounded "
+             "symbolic window_size. B (histories from the constructor, numeric decisions free): CUSUM burn_in in {2,3}, "
+             "N<=2*burn_in+3; ADWIN/ADWINAccuracy max_buckets in {1,2}, check period in {1,2}, min window in {0,2}, N<=9 (7); "
+             "LFR burn_in in {0,1,2} x subsample in {1,2}, N<=3; KdqTreeStreaming window in {1,2}, N<=3w+4; KdqTreeBatch N<=4; "
+             "HDDDM/CDBD detect_batch in {1,2,3} x {stdev,tstat}, N<=4(5); NNDVI N<=4; PCACD window 2, both metrics, scaling "
+             "on/off, N<=4w+2",
+    "thorough": "as quick with STEPD L<=5, CUSUM N<=2*burn_in+4, ADWIN max_buckets<=3, period in {1,2,4}, N<=12, LFR N<=4, "
+                "kdq window<=3, HDM N<=6(7), PCACD window in {2,3}",
+}
+OUTSIDE = ("histories longer than N for the B-shaped detectors; IEEE rounding / NaN for the S-shaped steps (exact real "
+           "arithmetic); MD3 (its lifecycle is decided by the C19 check)")
+ASSUMPTIONS = [
+    "S steps: pre-state satisfies the stated representation invariant (0<=since<=total, recs inside the current epoch, "
+    "alarms only after warm-up); the invariant is itself proved inductive on every path",
+    "CUSUM histories: np.mean/np.std and max() havoc'd to arbitrary reals (lifecycle does not depend on them)",
+    "ADWIN: _check_epsilon answers are arbitrary booleans (every cut pattern explored); bucket arrays object-dtype",
+    "LFR: _sim_bounds returns arbitrary bounds (Monte-Carlo not simulated)",
+    "kdq: KDQTreePartitioner replaced by a recording stub, divergence and critical value arbitrary reals",
+    "HDM: per-feature distances arbitrary non-negative reals via the public divergence= hook; bootstrap epsilon0 arbitrary; "
+    "histogram builder stubbed; batches are concrete placeholders",
+    "NNDVI: partitioner, distance and threshold arbitrary; PCACD: sklearn scaler/PCA shape stubs, divergences arbitrary, "
+    "internal PageHinkley real",
+    "STEPD: scipy.stats.norm.cdf replaced by an arbitrary value in [0,1]",
+    "division by a symbolic value assumes a non-zero divisor, sqrt assumes a non-negative argument (counted in evidence)",
+]
 TRUSTED = ["z3 (nonlinear real arithmetic, linear integer arithmetic)", "CPython + numpy object-array dispatch onto proxies"]
 
 
@@ -291,6 +315,127 @@ def body_history(ctx, det, N, cfg):
 
 
 # --------------------------------------------------------------------------
+# data-drift detectors: their since-reset counters have detector-specific restarts
+
+
+def _basic(ctx, d, drv, total_exp, since_exp, warm):
+    t2, s2 = drv.counters()
+    ctx.prove(ctx.eq(t2, total_exp), "total-counter")
+    ctx.prove(ctx.eq(s2, since_exp), "since-reset-counter")
+    post = d.drift_state
+    ctx.prove(in_domain(post), "state-domain")
+    ctx.prove(lnot(state_is(post, "warning")), "never-warns")
+    ctx.prove(implies(lnot(state_is(post, None)), warm), "no-alarm-before-warm-up")
+    if state_is(post, "drift") is True:
+        ctx.witness("state-drift")
+
+
+def body_kdq_stream(ctx, N, w):
+    from .drivers import DRIVERS
+
+    with DRIVERS["KdqTreeStreaming"](ctx, window_size=w) as drv:
+        d = drv.det
+        pos = 0  # samples of the current epoch (reference-model bookkeeping of the harness)
+        for i in range(N):
+            pre = d.drift_state
+            total, since = drv.counters()
+            if state_is(pre, "drift") is True:
+                pos = 0
+                ctx.witness("after-drift")
+            drv.step(i)
+            pos += 1
+            # the counter restarts when the reference window completes, and after a drift
+            since_exp = pos if pos < w else pos - w
+            _basic(ctx, d, drv, total + 1, since_exp, pos >= 2 * w)
+
+
+def body_kdq_batch(ctx, N, set_ref):
+    from .drivers import DRIVERS
+
+    with DRIVERS["KdqTreeBatch"](ctx) as drv:
+        d = drv.det
+        if set_ref:
+            d.set_reference(drv.fresh_batch("ref"))
+            ctx.prove(land(d.total_batches == 0, d.batches_since_reset == 0), "set_reference-not-counted")
+        have_ref = bool(set_ref)
+        for i in range(N):
+            pre = d.drift_state
+            total, since = drv.counters()
+            drv.step(i)
+            if not have_ref:
+                # the batch that builds the reference: counted in the total, epoch counter restarts to 0
+                _basic(ctx, d, drv, total + 1, 0, False)
+                have_ref = True
+            else:
+                was = state_is(pre, "drift") is True
+                if was:
+                    ctx.witness("after-drift")
+                _basic(ctx, d, drv, total + 1, 1 if was else since + 1, True)
+
+
+def body_hdm(ctx, N, cfg):
+    from .drivers import DRIVERS
+
+    db = cfg["detect_batch"]
+    with DRIVERS["HDM"](ctx, **cfg) as drv:
+        d = drv.det
+        d.set_reference(drv.fresh_batch("ref", rows=cfg.get("ref_rows", 4)))
+        # detect_batch=1 splits a proxy test batch off the reference, and counts it
+        ctx.prove(land(d.total_batches == (1 if db == 1 else 0), d.batches_since_reset == (1 if db == 1 else 0)),
+                  "counters-after-set_reference")
+        for i in range(N):
+            pre = d.drift_state
+            total, since = drv.counters()
+            drv.step(i)
+            was = state_is(pre, "drift") is True
+            if was:
+                ctx.witness("after-drift")
+            extra = 1 if (was and db == 1) else 0
+            since_exp = (2 if db == 1 else 1) if was else since + 1
+            _, s2 = drv.counters()
+            _basic(ctx, d, drv, total + 1 + extra, since_exp, s2 >= (3 if db == 3 else 2))
+
+
+def body_nndvi(ctx, N):
+    from .drivers import DRIVERS
+
+    with DRIVERS["NNDVI"](ctx) as drv:
+        d = drv.det
+        d.set_reference(drv.fresh_batch("ref"))
+        ctx.prove(land(d.total_batches == 0, d.batches_since_reset == 0), "set_reference-not-counted")
+        for i in range(N):
+            pre = d.drift_state
+            total, since = drv.counters()
+            drv.step(i)
+            was = state_is(pre, "drift") is True
+            if was:
+                ctx.witness("after-drift")
+            _basic(ctx, d, drv, total + 1, 1 if was else since + 1, True)
+
+
+def body_pcacd(ctx, N, cfg):
+    from .drivers import DRIVERS
+
+    w = cfg["window_size"]
+    with DRIVERS["PCACD"](ctx, **cfg) as drv:
+        d = drv.det
+        epoch = 0
+        for i in range(N):
+            pre = d.drift_state
+            total, since = drv.counters()
+            drv.step(i)
+            was = state_is(pre, "drift") is True
+            if was:
+                epoch += 1
+                ctx.witness("after-drift")
+            _, s2 = drv.counters()
+            # first epoch: reference + test window (2w samples); later: the old test window is the
+            # reference, w further samples fill the test window; the sample that triggers the rebuild is discarded
+            need = 2 * w if epoch == 0 else w
+            _basic(ctx, d, drv, total + 1, 0 if was else since + 1, s2 > need)
+
+
+# --------------------------------------------------------------------------
 
 
 def jobs(tier):
@@ -322,6 +467,29 @@ def jobs(tier):
                                {"det": "ADWIN", "N": 9 if q else 12,
                                 "cfg": {"max_buckets": mb, "new_sample_thresh": nst, "window_size_thresh": wst,
                                         "subwindow_size_thresh": 1}},
+                               expect=("after-drift", "state-drift")))
+    for w in (1, 2) if q else (1, 2, 3):
+        out.append(Job(f"kdqstream-w{w}", "checks.c01:body_kdq_stream", {"N": 3 * w + 4, "w": w},
+                       expect=("after-drift", "state-drift")))
+    for sr in (0, 1):
+        out.append(Job(f"kdqbatch-setref{sr}", "checks.c01:body_kdq_batch", {"N": 4 if q else 5, "set_ref": sr},
+                       expect=("after-drift", "state-drift")))
+    for db in (1, 2, 3):
+        for stat in ("stdev", "tstat"):
+            for cls in ("HDDDM", "CDBD"):
+                if q and cls == "CDBD" and stat == "tstat":
+                    continue
+                out.append(Job(f"hdm-{cls}-db{db}-{stat}", "checks.c01:body_hdm",
+                               {"N": (4 if q else 6) + (1 if db == 3 else 0),
+                                "cfg": {"cls": cls, "detect_batch": db, "statistic": stat,
+                                        "features": 2 if cls == "HDDDM" else 1}},
+                               expect=("after-drift", "state-drift")))
+    out.append(Job("nndvi", "checks.c01:body_nndvi", {"N": 4 if q else 5}, expect=("after-drift", "state-drift")))
+    for w in (2,) if q else (2, 3):
+        for metric in ("intersection", "kl"):
+            for osc in (True, False):
+                out.append(Job(f"pcacd-w{w}-{metric}-scale{int(osc)}", "checks.c01:body_pcacd",
+                               {"N": 4 * w + 2, "cfg": {"window_size": w, "metric": metric, "online_scaling": osc}},
                                expect=("after-drift", "state-drift")))
     for mb in (1, 2):
         out.append(Job(f"adwinacc-hist-mb{mb}", "checks.c01:body_history",
